@@ -616,6 +616,8 @@ func (f *frame) stmt(s ast.Stmt) (ctl, error) {
 					elems = append(elems, sl.M[k])
 				}
 			}
+		case nil:
+			// nil slice or map: no iterations
 		default:
 			return ctlNone, unsup(s.Pos(), "range over %T", xv)
 		}
@@ -1713,6 +1715,8 @@ func (f *frame) call(e *ast.CallExpr) ([]Value, error) {
 					return []Value{int64(0)}, nil
 				}
 				return []Value{int64(len(s.M))}, nil
+			case nil:
+				return []Value{int64(0)}, nil
 			}
 			return nil, unsup(e.Pos(), "len of %T", v)
 		case "make":
